@@ -5,7 +5,7 @@
 
 From Coq Require Import ZArith Reals List Bool Lra Lia.
 From Flocq Require Import Core.
-From Rubato.Model Require Import Num Reals Base Validate Nearest Kernels Async.
+From Rubato.Model Require Import Num Reals Base Validate Nearest Kernels Async Fft Resamplers.
 From Rubato.Gen Require Import SincGen.
 From Rubato.Proofs Require Import ShapeP ValidateP EngineP StepperR MalformedP NearestR FastInR SincInR.
 Import ListNotations.
@@ -41,7 +41,7 @@ Record so_wf (blen : Z) (s : ST) : Prop := {
   uw_nbr : nbr_ok (se_type env) (unbr s);
   uw_li : - IZR (uL s) - 1 < uli s <= -4;
   uw_needed : uneeded s = Zceil (uli s + IZR (uC s) * / uratio s + IZR (uL s));
-  uw_fill : (0 <= ufill s <= Zceil (IZR (uCmax s) * / uratio s) + uL s)%Z;
+  uw_fill : (0 <= ufill s /\ ufill s + 2 * uL s <= blen)%Z;    (* the frames of the last call, wherever its ratio put them *)
   uw_blen : (Zceil (IZR (uCmax s) * / uratio s) + 3 * uL s <= blen)%Z;
 }.
 
@@ -324,3 +324,138 @@ Proof.
 Qed.
 
 End History.
+
+(** * Histories with non-ramped ratio changes and set_chunk_size between the calls
+
+    As for FastFixedOut (FastOutR, Section Steps): a non-ramped [set_resample_ratio] recomputes needed_input_size from
+    the carried position, so every accepted change is safe as long as the buffer has room, and the constructor
+    sizes the buffer for the smallest accepted ratio (so_ctor_wfe_R in SincCtorR). *)
+Section Steps.
+Variable env : sinc_env.
+Notation A := (@so_arch CR SR env).
+Notation ST := (@astate CR SR SO).
+
+Record so_wfe (blen : Z) (s : ST) : Prop := {
+  ue_wf : so_wf env blen s;
+  ue_cap : forall r2, @so_set_ratio_accept CR (as_ctl s) r2 = true ->
+           0 < r2 /\ (Zceil (IZR (uCmax s) * / r2) + 3 * uL s <= blen)%Z;
+}.
+
+Lemma so_set_ratio_wfe blen (s s1 : ST) r2 :
+  so_wfe blen s -> @so_set_ratio CR SR s r2 false = (s1, Ok tt) ->
+  so_wfe blen s1 /\ uratio s1 = r2 /\ uC s1 = uC s /\ uCmax s1 = uCmax s /\ uL s1 = uL s /\ uli s1 = uli s.
+Proof.
+  intros [[WC Wn Wlb Wlm Wb Wr Wt WL Wnb Wli Wnd Wfl Wbl] Wcap] E. unfold so_set_ratio in E.
+  destruct (so_set_ratio_accept (as_ctl s) r2) eqn:Ea; [|discriminate E].
+  destruct (Wcap r2 Ea) as [Hr2 Hb2].
+  injection E as <-.
+  set (st2 := set_SincFixedOut_target_ratio (set_SincFixedOut_resample_ratio (as_ctl s) r2) r2).
+  assert (P : SincFixedOut_last_index st2 = uli s /\ SincFixedOut_chunk_size st2 = uC s /\ SincFixedOut_resample_ratio st2 = r2 /\
+              SincFixedOut_target_ratio st2 = r2 /\ SincFixedOut_interpolator_len st2 = uL s)
+    by (destruct s as [st ? ?]; destruct st; repeat split; reflexivity).
+  destruct P as (Pi & Pc & Pr & Pt & Pl).
+  assert (Hn : @so_update_needed_len CR st2 = Zceil (uli s + IZR (uC s) * / r2 + IZR (uL s))).
+  { rewrite so_update_needed_R by (rewrite ?Pt, ?Pr; try exact Hr2; reflexivity).
+    rewrite Pi, Pc, Pr, Pl. apply Z.max_r.
+    assert (Ht : 0 < / r2) by (apply Rinv_0_lt_compat; exact Hr2).
+    assert (HC1 : 1 <= IZR (uC s)) by (apply IZR_le; lia).
+    assert (-1 < Zceil (uli s + IZR (uC s) * / r2 + IZR (uL s)))%Z; [|lia]. apply lt_IZR.
+    generalize (Zceil_ub (uli s + IZR (uC s) * / r2 + IZR (uL s))). change (IZR (-1)) with (-1). nra. }
+  unfold uC, uCmax, unch, uratio, uli, uL, unbr, ufill, uneeded in *. fold st2.
+  destruct s as [st bufs mask]. destruct st. cbn in *.
+  split; [|repeat split; reflexivity].
+  constructor; [constructor; cbn; try assumption; try reflexivity; try lia | cbn; exact Wcap].
+Qed.
+
+Lemma so_set_chunk_wfe blen (s : ST) n : so_wfe blen s -> (0 <= n)%Z ->
+  so_wfe blen (so_set_chunk s n) /\ uCmax (so_set_chunk s n) = uCmax s.
+Proof.
+  intros [W Wcap] Hn. destruct (so_set_chunk_wf env blen s n W Hn) as (W' & _ & _ & HL).
+  assert (HCm : uCmax (so_set_chunk s n) = uCmax s).
+  { unfold so_set_chunk. destruct (so_set_chunk_bad _ _); [reflexivity|]. unfold uCmax. destruct s as [st ? ?]; destruct st; reflexivity. }
+  split; [|exact HCm]. constructor; [exact W'|].
+  intros r2 Ha. rewrite HCm, HL. apply Wcap. rewrite <- Ha.
+  unfold so_set_chunk. destruct (so_set_chunk_bad _ _); [reflexivity|]. destruct s as [st ? ?]; destruct st; reflexivity.
+Qed.
+
+Theorem so_call_wfe_R blen (s : ST) wi wo m :
+  so_wfe blen s -> a_precheck A s wi wo m = Ok tt ->
+  exists (s' : ST) outs,
+    pib A s wi wo m = Ok (s', (uneeded s, uC s), outs) /\ so_wfe blen s' /\
+    uli s' = uli s + IZR (uC s) * / uratio s - IZR (uneeded s) /\
+    uC s' = uC s /\ uCmax s' = uCmax s /\ uratio s' = uratio s /\ uL s' = uL s /\ (0 <= uneeded s)%Z.
+Proof.
+  intros [W Wcap] Hpre.
+  destruct (so_call_const_R env blen s wi wo m W Hpre) as (s' & outs & E & W' & Hli & HC & HCm & Hnch & Hr & HL & HN).
+  exists s', outs. split; [exact E|]. split; [|repeat split; assumption].
+  constructor; [exact W'|].
+  destruct (pib_ctl A s s' wi wo m _ _ E) as (last & Ec).
+  intros r2 Ha. rewrite HCm, HL. apply Wcap. rewrite <- Ha. unfold so_set_ratio_accept. rewrite Ec.
+  destruct (as_ctl s). reflexivity.
+Qed.
+
+Inductive so_op2 :=
+| U2Call (wi wo : list (list R)) (m : option (list bool))
+| U2Chunk (n : Z)
+| U2Step (r2 : R).
+
+(* the run records, for every call, (frames consumed, frames produced, input_frames_next() and chunk_size before it) *)
+Fixpoint so_run_ops (s : ST) (ops : list so_op2) : res (ST * list (Z * Z * Z * Z)) :=
+  match ops with
+  | [] => Ok (s, [])
+  | U2Call wi wo m :: rest =>
+      do _ <- a_precheck A s wi wo m;
+      do x <- pib A s wi wo m;
+      let '(s', (a, b), _) := x in
+      do y <- so_run_ops s' rest;
+      let '(s'', log) := y in
+      Ok (s'', (a, b, uneeded s, uC s) :: log)
+  | U2Chunk n :: rest => so_run_ops (so_set_chunk s n) rest
+  | U2Step r2 :: rest =>
+      match @so_set_ratio CR SR s r2 false with
+      | (s1, Ok tt) => so_run_ops s1 rest
+      | (_, Err e) => Err e
+      | (_, Panic e) => Panic e | (_, UB e) => UB e | (_, Diverge) => Diverge
+      end
+  end.
+
+Definition ucall_ok (e : Z * Z * Z * Z) : Prop :=
+  let '(a, b, nxt, c) := e in a = nxt /\ b = c /\ (0 <= a)%Z.
+
+(** Every history of well-formed calls, set_chunk_size calls and non-ramped ratio changes -- any the setter accepts --
+    runs without a failed assert, an out-of-range slice or non-termination; every call consumes exactly
+    input_frames_next() frames and produces exactly the current chunk_size. *)
+Theorem so_history_steps_R blen : forall ops (s : ST), so_wfe blen s ->
+  (forall n, In (U2Chunk n) ops -> (0 <= n)%Z) ->
+  match so_run_ops s ops with
+  | Ok (s', log) => so_wfe blen s' /\ uCmax s' = uCmax s /\ Forall ucall_ok log
+  | Err _ => True
+  | Panic _ | UB _ | Diverge => False
+  end.
+Proof.
+  induction ops as [|[wi wo m|k|r2] rest IH]; intros s W Hops; cbn [so_run_ops].
+  - split; [exact W|]. split; [reflexivity|constructor].
+  - destruct (a_precheck A s wi wo m) as [[]| | | |] eqn:Ep; cbn [bind]; try exact I.
+    + destruct (so_call_wfe_R blen s wi wo m W Ep) as (s' & outs & E & W' & Hli & HC & HCm & Hr & HL & HN).
+      rewrite E. cbn [bind]. specialize (IH s' W' (fun k Hk => Hops k (or_intror Hk))).
+      destruct (so_run_ops s' rest) as [[s'' log]| | | |]; cbn [bind]; try exact IH.
+      destruct IH as (W'' & HC'' & Hlog). split; [exact W''|]. split; [congruence|].
+      constructor; [cbn; repeat split; try reflexivity; exact HN | exact Hlog].
+    + destruct (a_precheck_total A s wi wo m) as [H|[e H]]; rewrite H in Ep; discriminate.
+    + destruct (a_precheck_total A s wi wo m) as [H|[e H]]; rewrite H in Ep; discriminate.
+    + destruct (a_precheck_total A s wi wo m) as [H|[e H]]; rewrite H in Ep; discriminate.
+  - destruct (so_set_chunk_wfe blen s k W (Hops k (or_introl eq_refl))) as (W1 & HC1).
+    specialize (IH _ W1 (fun j Hj => Hops j (or_intror Hj))).
+    destruct (so_run_ops (so_set_chunk s k) rest) as [[s'' log]| | | |]; try exact IH.
+    destruct IH as (W'' & HC'' & Hlog). split; [exact W''|]. split; [congruence|exact Hlog].
+  - destruct (@so_set_ratio CR SR s r2 false) as [s1 o] eqn:Es.
+    assert (Ho : o = Ok tt \/ exists e, o = Err e).
+    { unfold so_set_ratio in Es. destruct (so_set_ratio_accept (as_ctl s) r2); injection Es as <- <-; [left; reflexivity | right; eexists; reflexivity]. }
+    destruct Ho as [-> | [e ->]]; [|exact I].
+    destruct (so_set_ratio_wfe blen s s1 r2 W Es) as (W1 & Hr1 & HC1 & HCm1 & _).
+    specialize (IH s1 W1 (fun j Hj => Hops j (or_intror Hj))).
+    destruct (so_run_ops s1 rest) as [[s'' log]| | | |]; try exact IH.
+    destruct IH as (W'' & HC'' & Hlog). split; [exact W''|]. split; [congruence|exact Hlog].
+Qed.
+
+End Steps.
